@@ -290,6 +290,10 @@ func drawTransplanted(rt *rapid.T) string {
 	k := gen.Uniform(rt, "transplant", len(pr.P.Stmts))
 	x := strings.TrimSpace(lang.ProgramText(&lang.Program{Stmts: pr.P.Stmts[k : k+1]}))
 	x = strings.TrimSuffix(x, ";")
+	if gen.Uniform(rt, "badbody", 8) == 0 {
+		// a definition whose body the parser takes and the compiler refuses
+		x = rapid.SampledFrom([]string{"function zb(a) { 1 += 2; }", "function zb(a) { return a.(2 += 3); }", "function zb(a) { foreach v in a { zc = len(v)(1); } }", "function zb() { switch ( 3 -= 1 ) { default { } } }"}).Draw(rt, "badbodytext")
+	}
 	frame := transplantFrames[gen.Uniform(rt, "frame", len(transplantFrames))]
 	rest := pr.P.Stmts
 	if rapid.Bool().Draw(rt, "moved") {
@@ -299,7 +303,12 @@ func drawTransplanted(rt *rapid.T) string {
 }
 
 func drawOddProgram(rt *rapid.T, corpus []string) (string, string) {
-	switch gen.Uniform(rt, "oddkind", 5) {
+	switch gen.Uniform(rt, "oddkind", 6) {
+	case 5:
+		// hash literals of every make (repeated keys, keys that print alike,
+		// expression keys, nesting), built and looked at
+		h := drawHashLiteral(rt, 2)
+		return "h = " + h + ";\nforeach k, v in h { id(k); }\nreturn [len(h), keys(h), " + h + "];", "hash-literals"
 	case 4:
 		return drawTransplanted(rt), "transplanted"
 	case 0:
